@@ -1,5 +1,7 @@
 pub mod capture;
 pub mod driver;
+pub mod gen20;
+pub mod gen20rt;
 pub mod io;
 pub mod model;
 pub mod present;
